@@ -365,7 +365,7 @@ class Quaternion(SMUserList):
             return Quaternion([q.log()._A for q in self])
         norm = self.norm()
         s = math.log(norm)
-        v = math.acos(self.s / norm) * base.unitvec(self.v)
+        v = math.atan2(base.norm(self.v), self.s) * base.unitvec(self.v)
         return Quaternion(s=s, v=v)
 
     def exp(self):
